@@ -17,12 +17,10 @@ IDS = ["C%02d" % i for i in range(1, 20)]
 PLAN = {}
 for p in IDS:
     PLAN[p] = {
-        "quick": [native("chk", "quick", QT)],
+        "quick": [native("chk", "quick", QT), native("rel", "quick", QT)],
         "thorough": [native("chk", "thorough", TT), native("rel", "thorough", TT)],
     }
-# value-producing monitors where wrapped arithmetic gives a wrong value instead of a panic: also quick in rel
-for p in ["C02", "C03", "C04", "C05", "C19"]:
-    PLAN[p]["quick"] = [native("chk", "quick", QT), native("rel", "quick", QT)]
+# every tier runs in both arithmetic profiles: wrapped arithmetic gives a wrong value instead of a panic
 # memory-safety legs (unsafe blocks on the format / serde paths, "returns normally")
 PLAN["C03"]["quick"] += [miri(2)]
 PLAN["C03"]["thorough"] += [miri(16), asan("quick"), valgrind()]
